@@ -539,6 +539,82 @@ def analyse(prog: Program):
                 for why in dict.fromkeys(reasons):
                     res["violations"].append({"kind": "key", "table": rec["table"], "function": fi, "lineno": lineno, "what": why,
                                               "key": rec["key"], "value": rec["value"]})
+    # (c) an entry of a process-lifetime table that becomes (part of) a result: every later call with the same key writes into the
+    #     array an earlier caller still holds.  Entries reach a result by being returned, by being the out= target of a call whose
+    #     value is kept, or by being handed to a transform with overwrite_*=True (which may return its operand's buffer).
+    for fi, mi in outer:
+        if not isinstance(fi.node, (ast.FunctionDef, ast.AsyncFunctionDef)):
+            continue
+        if not any(_table_ref(n, mi, fi, tables) is not None for n in ast.walk(fi.node) if isinstance(n, (ast.Name, ast.Attribute))):
+            continue
+        # tables whose entries are arrays (built by an array maker somewhere in this function); functions, strings, numbers are harmless to share
+        arr_tables = set()
+        for n in ast.walk(fi.node):
+            if isinstance(n, ast.Assign):
+                for t in n.targets:
+                    if isinstance(t, ast.Subscript) and _table_ref(t.value, mi, fi, tables) is not None:
+                        if any(isinstance(c, ast.Call) and isinstance(c.func, ast.Attribute) and c.func.attr in ARRAY_MAKERS for c in ast.walk(n.value)) \
+                                or any(isinstance(c, ast.Name) and c.id in [tt.id for s2 in ast.walk(fi.node) if isinstance(s2, ast.Assign) for tt in s2.targets
+                                                                             if isinstance(tt, ast.Name) and any(isinstance(c2, ast.Call) and isinstance(c2.func, ast.Attribute)
+                                                                                                                    and c2.func.attr in ARRAY_MAKERS for c2 in ast.walk(s2.value))]
+                                       for c in ast.walk(n.value)):
+                            arr_tables.add(_table_ref(t.value, mi, fi, tables))
+        if not arr_tables:
+            continue
+        tainted = {}        # local name -> lineno of the statement that tied it to a table entry
+
+        def is_entry(e):
+            """The expression denotes the stored object itself (or a view of it)."""
+            if isinstance(e, ast.Subscript):
+                if _table_ref(e.value, mi, fi, tables) in arr_tables:
+                    return True
+                return is_entry(e.value)
+            if isinstance(e, ast.Name):
+                return e.id in tainted
+            if isinstance(e, ast.NamedExpr):
+                return is_entry(e.value)
+            if isinstance(e, ast.Attribute) and e.attr in ("T", "real", "imag"):
+                return is_entry(e.value)
+            if isinstance(e, ast.IfExp):
+                return is_entry(e.body) or is_entry(e.orelse)
+            if isinstance(e, ast.Call):
+                f = e.func
+                if isinstance(f, ast.Attribute) and f.attr in ("get", "setdefault") and _table_ref(f.value, mi, fi, tables) in arr_tables:
+                    return True
+                if isinstance(f, ast.Attribute) and f.attr in ("reshape", "view", "squeeze", "swapaxes", "transpose", "ravel") and is_entry(f.value):
+                    return True
+                for k in e.keywords:
+                    if k.arg == "out" and (is_entry(k.value) or (isinstance(k.value, ast.Tuple) and any(is_entry(x) for x in k.value.elts))):
+                        return True       # np.multiply(a, b, out=X) returns X
+                if any(k.arg and k.arg.startswith("overwrite_") and isinstance(k.value, ast.Constant) and k.value.value is True for k in e.keywords) \
+                        and any(is_entry(a) for a in e.args):
+                    return True           # the transform may work in, and return, its operand's buffer
+                fn_ = _dotted(f) or ""
+                last = fn_.split(".")[-1] if fn_ else (f.attr if isinstance(f, ast.Attribute) else "")
+                if (last == "like" or last[:1].isupper()) and any(is_entry(a) for a in list(e.args) + [k.value for k in e.keywords]):
+                    return True           # a signal built around the array holds that array
+            return False
+        stmts = sorted((n for n in ast.walk(fi.node) if isinstance(n, (ast.Assign, ast.AnnAssign, ast.NamedExpr, ast.AugAssign))), key=lambda n: n.lineno)
+        for _round in range(2):
+            for n in stmts:
+                val = n.value
+                tgts = n.targets if isinstance(n, ast.Assign) else [n.target]
+                if val is not None and is_entry(val):
+                    for t in tgts:
+                        if isinstance(t, ast.Name):
+                            tainted.setdefault(t.id, n.lineno)
+        # stores INTO the table are not hand-outs; what matters is what is returned
+        for n in ast.walk(fi.node):
+            if not isinstance(n, ast.Return) or n.value is None:
+                continue
+            hit = n.value if is_entry(n.value) else None
+            if hit is None:
+                continue
+            # values the table holds that cannot be changed in place are harmless to share
+            res["violations"].append({"kind": "shared", "table": "(process-lifetime table)", "function": fi, "lineno": n.lineno,
+                                      "what": f"`{ast.unparse(hit)[:60]}` is (a view of) an array kept in a table that outlives the call, and it becomes the "
+                                              "result: the next call with the same key writes into the array this caller still holds",
+                                      "key": "", "value": ast.unparse(n.value)[:120]})
     for tr, st in tables.items():
         res["tables"].append({"table": ".".join(x for x in tr if x), "line": st.lineno, "filled_in_functions": tr in filled})
 
@@ -687,7 +763,8 @@ def check(run, prog: Program, pid, rule="RM"):
         seen.add(k)
         run.ob(rule, f"{fi.module.replace('.', '/')}.py:{v['lineno']} {fi.qualname}", f"{v['table']}[{v['key']}] = {v['value']}"[:200],
                "a table that outlives the call is keyed by everything its entries were computed from, and hands out copies" if v["kind"] == "key"
-               else "an object kept in a process-lifetime cache is not handed to callers who may change it", False, found=v["what"], nontrivial=True)
+               else ("a scratch array that outlives the call never becomes (part of) a result" if v["kind"] == "shared"
+                     else "an object kept in a process-lifetime cache is not handed to callers who may change it"), False, found=v["what"], nontrivial=True)
     if not mine:
         n_t = sum(1 for t in res["tables"] if t["filled_in_functions"])
         run.ob(rule, "pulsarbat (all modules)", f"{len(res['tables'])} empty module/class-level dict(s), {n_t} filled inside functions, "
